@@ -40,14 +40,41 @@ def determinism(args, seed, jobs):
     return 1 if bad else 0
 
 
-def repo_clean():
-    r = subprocess.run(["git", "-C", "/repo", "status", "--porcelain", "--untracked-files=no"], stdout=subprocess.PIPE, text=True)
-    return r.stdout.strip() == ""
+MUT = "/tmp/verif-mut"
+
+
+def sh(cmd, cwd=None, env=None):
+    return subprocess.run(cmd, cwd=cwd, shell=True, stdout=subprocess.PIPE, stderr=subprocess.STDOUT, text=True, env=env)
+
+
+def scratch_setup():
+    """A scratch copy of /repo's working tree plus a shadow of the simulator crate
+    that depends on the copy (sources symlinked, own target directory)."""
+    sh(f"rm -rf {MUT}/repo {MUT}/sim {MUT}/out && mkdir -p {MUT}/repo {MUT}/sim/.cargo {MUT}/out")
+    sh(f"rsync -a --exclude target --exclude .git /repo/ {MUT}/repo/")
+    sh(f"cp {D.SIM}/Cargo.lock {D.SIM}/rust-toolchain {MUT}/sim/ && ln -s {D.SIM}/src {MUT}/sim/src")
+    with open(f"{D.SIM}/Cargo.toml") as f:
+        toml = f.read().replace('path = "/repo"', f'path = "{MUT}/repo"')
+    with open(f"{MUT}/sim/Cargo.toml", "w") as f:
+        f.write(toml)
+    with open(f"{MUT}/sim/.cargo/config.toml", "w") as f:
+        f.write(f'[net]\noffline = true\n\n[build]\ntarget-dir = "{MUT}/target"\nrustflags = ["--cfg", "cactusref_verif"]\n')
+
+
+def scratch_apply(patch):
+    sh(f"rsync -a --delete /repo/src/ {MUT}/repo/src/")
+    r = sh(f"git apply {patch}", cwd=f"{MUT}/repo")
+    if r.returncode != 0:
+        return r.stdout
+    r = sh("cargo build --release --offline", cwd=f"{MUT}/sim", env=dict(os.environ, CARGO_NET_OFFLINE="true"))
+    if r.returncode != 0:
+        return r.stdout[-1500:]
+    return None
 
 
 def run_check(prop, scale):
-    env = dict(os.environ, VERIF_SCALE=str(scale))
-    r = subprocess.run([os.path.join(D.VERIF, "check"), prop, "quick"], stdout=subprocess.PIPE, stderr=subprocess.STDOUT, text=True, env=env, cwd=D.VERIF)
+    env = dict(os.environ, VERIF_SCALE=str(scale), VERIF_SELFTEST_BIN=f"{MUT}/target/release/cactus-sim", VERIF_SELFTEST_OUT=f"{MUT}/out")
+    r = subprocess.run([sys.executable, os.path.join(D.VERIF, "driver", "driver.py"), "check", prop, "quick"], stdout=subprocess.PIPE, stderr=subprocess.STDOUT, text=True, env=env, cwd=D.VERIF)
     viol = [l for l in r.stdout.splitlines() if l.startswith("VIOLATION")]
     info = [l for l in r.stdout.splitlines() if l.startswith("violation kind=")]
     return r.returncode, viol, info, r.stdout
@@ -72,49 +99,51 @@ def collect_patches(names):
 
 
 def mutants(args, seed, jobs):
-    if not repo_clean():
-        print("HARNESS-ERROR /repo has uncommitted changes to tracked files; refusing to apply patches")
-        return 2
+    """Every patch is applied to a scratch copy of /repo under /tmp (never to /repo),
+    the simulator is rebuilt against the copy, and the quick checks are run on it.
+    VERIF_MUT_ALL=1 runs every check on every patch (cross-detection matrix)."""
     scale = float(os.environ.get("VERIF_MUT_SCALE", "0.25"))
     results = []
     failures = 0
     all_props = D.SIM_PROFILES + ["C15"]
+    scratch_setup()
     try:
         for name, patch, trips, equivalent in collect_patches(args):
-            subprocess.run(["git", "-C", "/repo", "checkout", "--", "."], check=True)
-            r = subprocess.run(["git", "-C", "/repo", "apply", patch], stdout=subprocess.PIPE, stderr=subprocess.STDOUT, text=True)
-            if r.returncode != 0:
-                print(f"{name}: PATCH DOES NOT APPLY: {r.stdout.strip()[:200]}")
+            err = scratch_apply(patch)
+            if err:
+                print(f"{name}: PATCH DOES NOT APPLY OR BUILD: {err.strip()[:300]}")
                 failures += 1
                 continue
             t0 = time.time()
-            row = {"name": name, "expected": trips, "caught_by": [], "missed_by": [], "false_alarms": []}
-            props = all_props if (equivalent or os.environ.get("VERIF_MUT_ALL")) else trips
+            row = {"name": name, "expected": trips, "caught_by": [], "missed_by": [], "also_caught_by": []}
+            props = sorted(all_props) if (equivalent or os.environ.get("VERIF_MUT_ALL")) else trips
             for p in props:
                 code, viol, info, out = run_check(p, scale)
                 if code == 2:
                     row.setdefault("harness_errors", []).append(p)
                     print(out[-800:])
                 elif code == 1:
-                    (row["caught_by"] if p in trips else row["false_alarms"]).append(p)
-                    row.setdefault("how", {})[p] = (info[0] if info else "")[:200]
+                    (row["caught_by"] if p in trips else row["also_caught_by"]).append(p)
+                    row.setdefault("how", {})[p] = (info[0] if info else "")[:220]
                 elif p in trips:
                     row["missed_by"].append(p)
-            ok = (not row["missed_by"] or (row["caught_by"] and os.environ.get("VERIF_MUT_ANY"))) and not row["false_alarms"] and not row.get("harness_errors")
             if equivalent:
-                ok = not row["caught_by"] and not row["false_alarms"] and not row.get("harness_errors")
+                ok = not row["caught_by"] and not row["also_caught_by"] and not row.get("harness_errors")
+            else:
+                ok = not row["missed_by"] and not row.get("harness_errors")
             failures += 0 if ok else 1
             row["ok"] = ok
             row["wall_s"] = round(time.time() - t0, 1)
             results.append(row)
-            print(f"{name}: {'OK' if ok else 'NOT OK'} expected={trips or 'silent'} caught_by={row['caught_by']} missed_by={row['missed_by']} false_alarms={row['false_alarms']} ({row['wall_s']}s)")
+            print(f"{name}: {'OK' if ok else 'NOT OK'} expected={trips or 'silent'} caught_by={row['caught_by']} missed_by={row['missed_by']} also_caught_by={row['also_caught_by']} ({row['wall_s']}s)", flush=True)
             for p, h in row.get("how", {}).items():
-                print(f"    {p}: {h}")
+                print(f"    {p}: {h}", flush=True)
     finally:
-        subprocess.run(["git", "-C", "/repo", "checkout", "--", "."], check=True)
-    os.makedirs(os.path.join(D.VERIF, "target"), exist_ok=True)
-    with open(os.path.join(D.VERIF, "target", "mutants-last.json"), "w") as f:
-        json.dump(results, f, indent=1)
+        out = os.environ.get("VERIF_MUT_REPORT", os.path.join(D.VERIF, "target", "mutants-last.json"))
+        os.makedirs(os.path.dirname(out), exist_ok=True)
+        with open(out, "w") as f:
+            json.dump(results, f, indent=1)
+        sh(f"rm -rf {MUT}")
     return 1 if failures else 0
 
 
